@@ -643,9 +643,18 @@ std::vector<IdSlot> idSlots(const IrModel &m)
         }
     }
     for (size_t i = 0; i < m.conns.size(); ++i) {
-        s.push_back({"connection", [i](IrModel &f) -> std::string & { return f.conns[i].id; }});
+        // the validator records connection / mapping ids from one side of each variable pair only, chosen by comparing
+        // (variable name + component name) of the two ends: both orders are location classes of their own
+        auto order = [&](size_t k) {
+            const auto &cn = m.conns[i];
+            std::string a = cn.maps[k].v1 + m.comps[static_cast<size_t>(cn.c1)].name;
+            std::string b = cn.maps[k].v2 + m.comps[static_cast<size_t>(cn.c2)].name;
+            bool firstIsC1 = cn.c1 < cn.c2; // components are visited in document order
+            return std::string((a < b) == firstIsC1 ? "/first-visited-end-sorts-first" : "/first-visited-end-sorts-last");
+        };
+        s.push_back({"connection" + (m.conns[i].maps.empty() ? std::string() : order(0)), [i](IrModel &f) -> std::string & { return f.conns[i].id; }});
         for (size_t k = 0; k < m.conns[i].maps.size(); ++k) {
-            s.push_back({"map_variables", [i, k](IrModel &f) -> std::string & { return f.conns[i].maps[k].id; }});
+            s.push_back({"map_variables" + order(k), [i, k](IrModel &f) -> std::string & { return f.conns[i].maps[k].id; }});
         }
     }
     return s;
@@ -994,6 +1003,11 @@ void addUniquenessFaults(std::vector<Fault> &cat)
             std::string b = rng.pick(bad);
             auto slot = s;
             out.push_back(irLoc(s.kind, "id of " + s.kind + " := '" + b + "'", [=](IrModel &f) { slot.ref(f) = b; }));
+            if (s.kind.rfind("connection", 0) == 0) {
+                // every connection of the base model: which end of which variable pair the validator records the id
+                // from depends on names and visiting order in ways the location class only approximates
+                out.back().must = true;
+            }
         }
         return out;
     }, [](GenOptions &g) { g.resets = true; g.mathProbability = 0.3; g.imports = true; g.maxComponents = 5; });
